@@ -56,6 +56,11 @@ EU1(eulerAngleX) EU1(eulerAngleY) EU1(eulerAngleZ)
 EU2(eulerAngleXY) EU2(eulerAngleYX) EU2(eulerAngleXZ) EU2(eulerAngleZX) EU2(eulerAngleYZ) EU2(eulerAngleZY)
 EU3(eulerAngleXYZ) EU3(eulerAngleYXZ) EU3(eulerAngleXZX) EU3(eulerAngleXYX) EU3(eulerAngleYXY) EU3(eulerAngleYZY) EU3(eulerAngleZYZ) EU3(eulerAngleZXZ)
 EU3(eulerAngleXZY) EU3(eulerAngleYZX) EU3(eulerAngleZYX) EU3(eulerAngleZXY) EU3(yawPitchRoll)
+ENTRY(derivedEulerAngleX) { out_mat(c, glm::derivedEulerAngleX(A(0), A(1))); }
+ENTRY(derivedEulerAngleY) { out_mat(c, glm::derivedEulerAngleY(A(0), A(1))); }
+ENTRY(derivedEulerAngleZ) { out_mat(c, glm::derivedEulerAngleZ(A(0), A(1))); }
+ENTRY(orientate2) { out_mat(c, glm::orientate2(A(0))); }
+ENTRY(orientate3_s) { out_mat(c, glm::orientate3(A(0))); }
 ENTRY(orientate3_v) { auto v = in_vec<3, TY>(c, 0); out_mat(c, glm::orientate3(v)); }
 ENTRY(orientate4_v) { auto v = in_vec<3, TY>(c, 0); out_mat(c, glm::orientate4(v)); }
 #define EX(N) ENTRY(N) { auto m = in_mat<4, 4, TY>(c, 0); TY t1, t2, t3; glm::N(m, t1, t2, t3); c.out(t1); c.out(t2); c.out(t3); }
